@@ -9,10 +9,10 @@ From Continuum Require Import Model.Base Model.VTable Model.Core
    reachable state - a transaction leaves at most one row per entity - and the package never
    trips over a row it wrote in an earlier flush of the same transaction *)
 Theorem C11_at_most_one_row : forall g evs,
-  cfg_consistent g ->
+  cfg_consistent g -> flat_hier g ->
   pk_unique (d_vt (s_db (run g evs))) /\ s_err (run g evs) = false.
 Proof.
-  intros g evs CC. split; [apply (reachable_tables_ok g evs CC) | apply reachable_no_error; exact CC].
+  intros g evs CC FH. split; [apply (reachable_tables_ok g evs CC FH) | apply reachable_no_error; assumption].
 Qed.
 
 (* (2) the operation type recorded for an entity after ANY sequence of insert / update / delete
